@@ -1,9 +1,17 @@
-"""C08 — mutexes: mutual exclusion, reader/writer rules, truthful upgrade, no lost grant (DESIGN.md §3 C08).
+"""C08 — mutexes: mutual exclusion, reader/writer rules, truthful upgrade, queue order, no lost grant (DESIGN.md §3 C08).
 
-Tie: E-SHIM.  The real lock code of /repo runs under the controlled scheduler; every atomic access to the lock
-word is replayed, access by access, on the Lean protocol model (kind, value read/expected, value written, CAS
-outcome, operation results); independent ghost-holder monitors in the harness check the property itself and the
-scheduler's deadlock detection checks "no lost grant"."""
+Tie: E-SHIM.  The real lock code of /repo runs under the controlled scheduler.
+  spin_rw_mutex, spin_mutex      header code; every access to the lock word replayed on the Lean models RwWord / Spin
+  queuing_mutex                  header code; every access to q_tail / m_next / m_going replayed on `Mcs`; FIFO monitor
+  mutex, rw_mutex                header code + libtbb's address_waiter on the INSTRUMENTED runtime; word accesses and the
+                                 sleep/wake hand-shake (enqueue, predicate, epoch check, semaphore P/V, flush) replayed on
+                                 `Slp.Mx` / `Slp.Rw`
+  queuing_rw_mutex               instrumented queuing_rw_mutex.cpp; holder-bookkeeping event log validated against the
+                                 proven specification machine `QRwSpec` (its node protocol is NOT modelled: partial)
+  speculative_spin_(rw_)mutex    fall-back path only (no RTM here): ghost-holder monitors + deadlock detection
+All families: independent ghost-holder monitors in the harness, deadlock (= lost hand-off / lost wake-up) detection,
+random schedules; bounded-preemption DFS for the component scenarios.  The memory orders executed by every acquiring /
+releasing access are regenerated from the traces into Generated/C08.lean (`orders`) and checked by `rw_orders_publish`."""
 import json
 import os
 import re
@@ -15,30 +23,37 @@ STUBS = "harness/common/r1_stubs.cpp"
 
 RW_OPS = ["lock", "try_lock", "unlock", "lock_shared", "try_lock_shared", "unlock_shared", "upgrade", "downgrade"]
 MX_OPS = ["lock", "try_lock", "unlock"]
+QM_OPS = ["acquire", "try_acquire", "release"]
+QRW_OPS = ["acquire_r", "acquire_w", "try_r", "try_w", "release", "upgrade", "downgrade"]
+ORDER_NUM = {"rlx": 0, "cns": 1, "acq": 2, "rel": 3, "acqrel": 4, "sc": 5}
+W8 = ["work"] * 8
 
 
-def gen(ck):
-    exe = cxx_build("C08", "consts", ["harness/c08/consts.cpp"], flags=["-O0", "-fno-access-control"])
-    rc, out, err = sh([exe], timeout=60)
-    c = json.loads(out)
-    ck.extra["generated_constants"] = c
-    gen_write("C08", "".join("def %s : Nat := %d\n" % (k, v) for k, v in sorted(c.items())))
-
+# --------------------------------------------------------------------------------------------------
+# harness output
+# --------------------------------------------------------------------------------------------------
 
 def parse_runs(out):
+    """e-lines: (tid, kind, var, order, a, b, ok) — values kept as strings."""
     runs, cur = [], None
     for l in out.split("\n"):
         w = l.split()
         if not w:
             continue
         if w[0] == "run":
-            cur = {"eff": {}, "ev": [], "res": {}, "mon": "", "sched": []}
+            cur = {"eff": {}, "ev": [], "res": {}, "mon": "", "sched": [], "v": [], "o": [], "grant": []}
         elif cur is None:
             continue
         elif w[0] == "eff":
             cur["eff"][int(w[1])] = w[2:]
         elif w[0] == "e":
-            cur["ev"].append((int(w[1]), w[2], w[3], w[4], w[5]))
+            cur["ev"].append((int(w[1]), w[2], w[3], w[4], w[5], w[6], w[7]))
+        elif w[0] == "v":
+            cur["v"].append(" ".join(w[1:]))
+        elif w[0] == "o":
+            cur["o"].append(tuple(w[1:]))
+        elif w[0] == "grant":
+            cur["grant"] = w[1:]
         elif w[0] == "res":
             cur["res"][int(w[1])] = w[2:]
         elif w[0] == "mon":
@@ -51,26 +66,7 @@ def parse_runs(out):
     return runs
 
 
-def replay_on_model(model, run, nthreads):
-    """Feed one observed run to the Lean model; returns None if it agrees, else a description."""
-    lines = ["reset"]
-    for t in range(nthreads):
-        lines.append("prog " + " ".join(run["eff"].get(t, [])))
-    for (t, k, a, b, ok) in run["ev"]:
-        lines.append("s %d" % t)
-    lines.append("state")
-    out = drv(model, "\n".join(lines) + "\n")
-    out = out[1 + nthreads:]
-    last = {}
-    for i, (t, k, a, b, ok) in enumerate(run["ev"]):
-        m = out[i].split(" | ")
-        ev = m[0].split()
-        exp = [k, a, b if (k != "load") else "0", ok]
-        if k == "store":
-            exp = [k, a, "0", ok]
-        if ev != exp:
-            return "event %d of thread %d: implementation %s, model %s" % (i, t, " ".join(exp), m[0])
-        last[t] = m[1].split() if len(m) > 1 else []
+def finished_ok(run, last, nthreads):
     for t in range(nthreads):
         if t in last:
             left, res = last[t][0], last[t][1:]
@@ -80,14 +76,93 @@ def replay_on_model(model, run, nthreads):
                 return "thread %d results: implementation %s, model %s" % (t, run["res"].get(t), list(reversed(res)))
         elif run["eff"].get(t):
             return "thread %d executed ops but produced no trace" % t
-    st = out[len(run["ev"])].split()
-    if st[1] != "0":
+    return None
+
+
+def replay_word(model, run, nthreads):
+    """spin_rw_mutex / spin_mutex: access-by-access replay (`s <tid>` steps the model, which prints its access)."""
+    lines = ["reset"] + ["prog " + " ".join(run["eff"].get(t, [])) for t in range(nthreads)]
+    lines += ["s %d" % e[0] for e in run["ev"]] + ["state"]
+    out = drv(model, "\n".join(lines) + "\n")[1 + nthreads:]
+    last = {}
+    for i, (t, k, var, order, a, b, ok) in enumerate(run["ev"]):
+        m = out[i].split(" | ")
+        exp = [k, a, "0" if k in ("load", "store") else b, ok]
+        if m[0].split() != exp:
+            return "event %d of thread %d: implementation %s, model %s" % (i, t, " ".join(exp), m[0])
+        last[t] = m[1].split() if len(m) > 1 else []
+    d = finished_ok(run, last, nthreads)
+    if d:
+        return d
+    if out[len(run["ev"])].split()[1] != "0":
         return "model reached a corrupted word (borrow across bit fields)"
     return None
 
 
-def scenarios(ck, ops, n, maxlen):
-    rng = ck.rng
+def replay_mcs(run, nthreads):
+    """queuing_mutex: every access to q_tail / m_next / m_going (kind, variable, values, CAS outcome) + FIFO logs."""
+    lines = ["reset"] + ["prog " + " ".join(run["eff"].get(t, [])) for t in range(nthreads)]
+    lines += ["s %d" % e[0] for e in run["ev"]] + ["state"]
+    out = drv("c08mcs", "\n".join(lines) + "\n")[1 + nthreads:]
+    last = {}
+    for i, (t, k, var, order, a, b, ok) in enumerate(run["ev"]):
+        m = out[i].split(" | ")
+        exp = [k, var, a, "0" if k == "load" else b, ok]
+        if m[0].split() != exp:
+            return "event %d of thread %d: implementation %s, model %s" % (i, t, " ".join(exp), m[0])
+        last[t] = m[1].split() if len(m) > 1 else []
+    d = finished_ok(run, last, nthreads)
+    if d:
+        return d
+    st = [x.split() for x in out[len(run["ev"])].split("|")]
+    if st[0] != ["0", "0"] or st[1] != []:
+        return "model ends with q_tail/bad/queue = %s %s" % (st[0], st[1])
+    if st[3] != run["grant"] or st[2] != st[3]:
+        return "grant order: implementation %s, model grantLog %s enqLog %s" % (run["grant"], st[3], st[2])
+    return None
+
+
+def replay_slp(model, run, nthreads, spin):
+    """mutex / rw_mutex: the Lean driver matches every implementation access against the model's next access of that
+    thread (word accesses, enqueue, epoch check, semaphore consume / V, flush) and skips the monitor's bookkeeping."""
+    lines = ["reset", "spin %d" % spin] + ["prog " + " ".join(run["eff"].get(t, [])) for t in range(nthreads)]
+    lines += ["e %d %s %s %s %s %s" % (t, k, var, a, b, ok) for (t, k, var, order, a, b, ok) in run["ev"]] + ["state"]
+    out = drv(model, "\n".join(lines) + "\n")[2 + nthreads:]
+    last, nskip = {}, 0
+    for i, (t, k, var, order, a, b, ok) in enumerate(run["ev"]):
+        o = out[i]
+        if o.startswith("ok"):
+            last[t] = o.split("|")[1].split()
+        elif o == "skip":
+            nskip += 1
+            if var == "word":
+                return "event %d of thread %d: access to the lock word skipped (%s %s %s)" % (i, t, k, a, b)
+        else:
+            return "event %d of thread %d: implementation %s %s %s %s ok=%s, model: %s" % (i, t, k, var, a, b, ok, o)
+    d = finished_ok(run, last, nthreads)
+    if d:
+        return d
+    st = [x.split() for x in out[len(run["ev"])].split("|")]
+    if st[0][0] != "0" or st[1] != [] or st[3] != []:
+        return "model ends with word/waitset/posted = %s %s %s" % (st[0], st[1], st[3])
+    return None
+
+
+def validate_qrw(run):
+    out = drv("c08qrw", "reset\n" + "".join("ev %s\n" % v for v in run["v"]) + "state\n")
+    for v, o in zip(run["v"], out[1:]):
+        if not o.startswith("ok"):
+            return "event '%s' is not an enabled transition of QRwSpec (%s) after %s" % (v, o, run["v"][:run["v"].index(v)][-6:])
+    if out[-1].replace("|", "").strip():
+        return "QRwSpec ends with holders/queue/upgraders: %s" % out[-1]
+    return None
+
+
+# --------------------------------------------------------------------------------------------------
+# scenarios
+# --------------------------------------------------------------------------------------------------
+
+def scenarios(rng, ops, n, maxlen):
     scs = []
     for _ in range(n):
         T = rng.choice([2, 2, 3, 3, 4])
@@ -95,7 +170,6 @@ def scenarios(ck, ops, n, maxlen):
     return scs
 
 
-# hand-written scenarios that aim at the dangerous windows
 RW_CORPUS = [
     [["lock_shared", "upgrade", "unlock"], ["lock_shared", "upgrade", "unlock"]],
     [["lock_shared", "upgrade", "unlock"], ["lock_shared", "upgrade", "unlock"], ["lock", "unlock", "try_lock_shared"]],
@@ -108,84 +182,308 @@ MX_CORPUS = [
     [["lock", "unlock", "lock", "unlock"], ["lock", "unlock", "lock", "unlock"]],
     [["try_lock", "unlock", "lock", "unlock"], ["lock", "unlock"], ["try_lock", "unlock", "try_lock", "unlock"]],
 ]
+QM_CORPUS = [
+    [["acquire", "release", "acquire", "release"], ["acquire", "release", "acquire", "release"]],
+    [["acquire", "release"], ["acquire", "release"], ["acquire", "release"]],
+    [["try_acquire", "release", "acquire", "release"], ["acquire", "release"], ["try_acquire", "release", "try_acquire", "release"]],
+    [["acquire", "release"], ["acquire", "release"], ["acquire", "release"], ["try_acquire", "acquire", "release"]],
+]
+QRW_CORPUS = [
+    [["acquire_r", "upgrade", "release"], ["acquire_r", "upgrade", "release"]],
+    [["acquire_r", "upgrade", "release"], ["acquire_r", "upgrade", "release"], ["acquire_w", "release"]],
+    [["acquire_r", "release"], ["acquire_w", "release"], ["acquire_r", "release"]],
+    [["acquire_w", "downgrade", "release"], ["acquire_w", "release"], ["acquire_r", "release"]],
+    [["acquire_r", "upgrade", "downgrade", "upgrade", "release"], ["try_w", "release", "acquire_r", "release"], ["acquire_r", "upgrade", "release"]],
+    [["acquire_r", "release"], ["acquire_w", "release"], ["try_r", "upgrade", "release"], ["acquire_r", "upgrade", "release"]],
+]
+# sleeping locks: `work` (12 writes to an unrelated atomic) keeps spinning waiters iterating until they go to sleep
+SMX_CORPUS = [
+    [["lock"] + W8 + ["unlock"]] * 3,
+    [["lock"] + W8 + ["unlock", "lock"] + W8 + ["unlock"]] * 3,
+    [["lock"] + W8 + ["unlock"]] * 4,
+    [["lock"] + W8 + ["unlock"], ["try_lock"] + W8 + ["unlock", "lock", "unlock"], ["lock", "unlock"] + W8 + ["lock", "unlock"]],
+]
+SRW_CORPUS = [
+    [["lock"] + W8 + ["unlock"]] * 3,
+    [["lock_shared"] + W8 + ["unlock_shared"], ["lock"] + W8 + ["unlock"], ["lock_shared"] + W8 + ["unlock_shared"]],
+    [["lock_shared"] + W8 + ["upgrade"] + W8 + ["unlock"], ["lock_shared"] + W8 + ["upgrade"] + W8 + ["unlock"], ["lock"] + W8 + ["unlock"]],
+    [["lock"] + W8 + ["downgrade"] + W8 + ["unlock_shared"], ["lock_shared"] + W8 + ["unlock_shared"], ["lock"] + W8 + ["unlock"]],
+    [["lock_shared"] + W8 + ["unlock_shared"] + W8 + ["lock", "unlock"], ["lock"] + W8 + ["unlock"] + W8 + ["lock_shared", "unlock_shared"],
+     ["try_lock_shared"] + W8 + ["upgrade"] + W8 + ["downgrade", "unlock_shared"], ["lock"] + W8 + ["unlock"]],
+]
 
 
-def run_family(ck, name, exe, model, corpus, ops, maxlen):
+# --------------------------------------------------------------------------------------------------
+# builds
+# --------------------------------------------------------------------------------------------------
+
+def build_hdr(name, src, defs=()):
+    return cxx_build("C08", name, [src, common.SHIM_SRC, STUBS], flags=["-O1", "-g", "-fno-access-control"] + list(defs) + common.SHIM_FLAGS)
+
+
+def build_rt(name, src, defs=(), drop=()):
+    objs = [o for o in common.shim_runtime_objects() if not any(os.path.basename(o).startswith(d + ".") for d in drop)]
+    return cxx_build("C08", name, [src, common.SHIM_SRC],
+                     flags=["-O1", "-g", "-fno-access-control", "-I" + REPO + "/src"] + list(defs) + common.SHIM_FLAGS, libs=objs + ["-ldl"])
+
+
+FAMILIES = {
+    # name: (exe name, builder, ops, corpus, max len of random programs, kind)
+    "spin_rw_mutex": ("rw", lambda: build_hdr("rw", "harness/c08/rw.cpp"), RW_OPS, RW_CORPUS, 6, "word:c08rw"),
+    "spin_mutex": ("mx", lambda: build_hdr("mx", "harness/c08/mx.cpp"), MX_OPS, MX_CORPUS, 6, "word:c08spin"),
+    "queuing_mutex": ("qm", lambda: build_hdr("qm", "harness/c08/qm.cpp"), QM_OPS, QM_CORPUS, 6, "mcs"),
+    "mutex": ("slpmx", lambda: build_rt("slpmx", "harness/c08/slp.cpp", ["-D__TBB_BUILD"], ["address_waiter.cpp"]), MX_OPS + ["work"], SMX_CORPUS, 7, "slp:c08mx"),
+    "rw_mutex": ("slprw", lambda: build_rt("slprw", "harness/c08/slp.cpp", ["-D__TBB_BUILD", "-DRWM"], ["address_waiter.cpp"]), RW_OPS + ["work", "work"], SRW_CORPUS, 8, "slp:c08rwm"),
+    "queuing_rw_mutex": ("qrw", lambda: build_rt("qrw", "harness/c08/qrw.cpp"), QRW_OPS, QRW_CORPUS, 6, "qrw"),
+    "speculative_spin_rw_mutex": ("specrw", lambda: build_rt("specrw", "harness/c08/qrw.cpp", ["-DSPEC_RW", "-mrtm"]), QRW_OPS, QRW_CORPUS, 6, "mon"),
+    "speculative_spin_mutex": ("specmx", lambda: build_rt("specmx", "harness/c08/qrw.cpp", ["-DSPEC_MX", "-mrtm"]), QRW_OPS, QRW_CORPUS, 6, "mon"),
+}
+
+
+def prog_text(sc):
+    return "".join("prog " + " ".join(p) + "\n" for p in sc)
+
+
+# --------------------------------------------------------------------------------------------------
+# E-GEN: constants, spin budget, memory-order table
+# --------------------------------------------------------------------------------------------------
+
+def role_of(lock, k, var, a, b, ok):
+    """1 = the access by which a thread obtains the lock, 2 = the access by which it hands the lock on, 0 = other."""
+    a, b, ok = int(a), int(b), int(ok)
+    if lock in ("spin_mutex", "mutex", "speculative_spin_mutex"):
+        if var != "word":
+            return 0
+        if k == "xchg" and a == 0 and b == 1:
+            return 1
+        if (k == "store" and a == 0) or (k == "xchg" and b == 0):
+            return 2
+    elif lock in ("spin_rw_mutex", "rw_mutex", "speculative_spin_rw_mutex"):
+        if var != "word":
+            return 0
+        if k == "cas" and ok:
+            return 1                                  # lock / try_lock / upgrade CAS
+        if k == "fadd" and not (a & 1):
+            return 1                                  # lock_shared's fetch_add
+        if k in ("fand", "fsub") or (k == "fadd" and (a & 1)):
+            return 2                                  # unlock, unlock_shared / upgrade's final subtraction, downgrade
+    elif lock == "queuing_mutex":
+        cls = re.sub(r"\d+$", "", var)
+        if cls == "going":
+            if k == "store" and a == 1:
+                return 2
+            if k == "load" and a == 1:
+                return 1
+        if cls == "tail":
+            if k == "xchg":
+                return 1 if a == 0 else 0
+            if k == "cas" and ok:
+                return 1 if a == 0 else (2 if b == 0 else 0)
+    return 0
+
+
+def collect_orders(lock, runs, table):
+    for r in runs:
+        for (t, k, var, order, a, b, ok) in r["ev"]:
+            role = role_of(lock, k, var, a, b, ok)
+            if role:
+                table.add((lock, re.sub(r"\d+$", "", var), k, ORDER_NUM.get(order, 0), role))
+        for (var, k, order, a, b, ok, given) in r["o"]:
+            role = role_of(lock, k, var, a, b, ok) if given == "-" else int(given)
+            if role:
+                table.add((lock, var, k, ORDER_NUM.get(order, 0), role))
+
+
+def measure_spin(runs):
+    """number of evaluations of the wake-up condition in timed_spin_wait_until before a thread goes to sleep: the
+    loads of the word between a failed exchange / fetch_or of a thread and its enqueue"""
+    best = None
+    for r in runs:
+        cnt = {}
+        for (t, k, var, order, a, b, ok) in r["ev"]:
+            if var == "word":
+                cnt[t] = cnt[t] + 1 if (k == "load" and t in cnt) else (0 if k in ("xchg", "for") else None)
+                if cnt[t] is None:
+                    del cnt[t]
+            elif var == "cnt" and k == "store" and int(a) == int(b) + 1 and t in cnt:
+                best = cnt[t] if best is None else min(best, cnt[t])
+                del cnt[t]
+            elif var.startswith("sem") or var == "epoch":
+                cnt.pop(t, None)
+    return best
+
+
+def gen(ck, exes):
+    exe = cxx_build("C08", "consts", ["harness/c08/consts.cpp"], flags=["-O0", "-fno-access-control"])
+    rc, out, err = sh([exe], timeout=60)
+    c = json.loads(out)
+    table, spin = set(), None
+    env = dict(os.environ, C08_ORDERS="1")
+    for lock, (ename, _, ops, corpus, maxlen, kind) in FAMILIES.items():
+        for si, sc in enumerate(corpus):
+            rc, out, err = sh([exes[lock], "rand", str(100 + si), "6" if kind.startswith("slp") else "3"], input=prog_text(sc), timeout=300, env=env)
+            runs = parse_runs(out)
+            collect_orders(lock, runs, table)
+            if lock == "rw_mutex":
+                s = measure_spin(runs)
+                spin = s if spin is None else (spin if s is None else min(spin, s))
+    if spin is None:
+        spin = 38
+        ck.assumptions.append("spin budget of timed_spin_wait_until could not be measured (no thread slept in the calibration runs): 38 assumed")
+    c["spinChecks"] = spin
+    ck.extra["generated_constants"] = c
+    ck.extra["orders_table"] = sorted(table)
+    body = "".join("def %s : Nat := %d\n" % (k, v) for k, v in sorted(c.items()))
+    body += "/-- (lock kind, variable, access kind, std::memory_order executed, role: 1 acquiring / 2 releasing), from the E-SHIM traces -/\n"
+    body += "def orders : List (String × String × String × Nat × Nat) := [\n" + ",\n".join(
+        '  ("%s", "%s", "%s", %d, %d)' % e for e in sorted(table)) + "]\n"
+    gen_write("C08", body)
+    locks = {e[0] for e in table}
+    ck.oblige("gen:orders-table covers every lock kind with an acquiring and a releasing access", "generated",
+              all(any(e[0] == l and e[4] == 1 for e in table) and any(e[0] == l and e[4] == 2 for e in table) for l in FAMILIES),
+              "lock kinds in the table: %s" % sorted(locks))
+    return spin
+
+
+# --------------------------------------------------------------------------------------------------
+# one lock family
+# --------------------------------------------------------------------------------------------------
+
+def run_family(ck, name, exe, spin):
+    ename, _, ops, corpus, maxlen, kind = FAMILIES[name]
     quick = ck.tier == "quick"
-    scs = corpus + scenarios(ck, ops, 25 if quick else 200, maxlen)
-    nrand = 30 if quick else 150
+    heavy = kind.startswith("slp")
+    nsc = (10 if heavy else 25) if quick else (60 if heavy else 200)
+    scs = corpus + scenarios(ck.rng, ops, nsc, maxlen)
+    nrand = (12 if heavy else 30) if quick else (60 if heavy else 150)
     bad_corr, bad_mon = [], []
-    nruns = 0
+    nruns = slept = 0
     for si, sc in enumerate(scs):
-        text = "".join("prog " + " ".join(p) + "\n" for p in sc)
-        rc, out, err = sh([exe, "rand", str(ck.seed * 1000 + si), str(nrand)], input=text, timeout=300)
+        nr = nrand * 2 if (heavy and si < len(corpus)) else nrand
+        rc, out, err = sh([exe, "rand", str(ck.seed * 1000 + si), str(nr)], input=prog_text(sc), timeout=600)
         runs = parse_runs(out)
         for r in runs:
             nruns += 1
-            ck.count(1, (name, len(sc), tuple(sorted(set(k for (_, k, _, _, ok) in r["ev"] if True))), tuple(tuple(v) for v in r["res"].values())))
+            kinds = tuple(sorted(set((e[1], re.sub(r"\d+$", "", e[2])) for e in r["ev"]))) or tuple(sorted(set(v.split()[0] for v in r["v"])))
+            ck.count(1, (name, len(sc), kinds, tuple(tuple(v) for v in r["res"].values())))
             if r["mon"] != "ok":
                 bad_mon.append((sc, r))
-            if model:
-                d = replay_on_model(model, r, len(sc))
+            d = None
+            if kind.startswith("word:"):
+                d = replay_word(kind[5:], r, len(sc))
+            elif kind == "mcs":
+                d = replay_mcs(r, len(sc))
+            elif kind.startswith("slp:"):
+                d = replay_slp(kind[4:], r, len(sc), spin)
+                slept += any(e[2] == "cnt" and e[1] == "store" for e in r["ev"])
+            elif kind == "qrw":
+                d = validate_qrw(r)
+            if kind != "mon":
                 ck.traces_validated += 1
                 if d:
                     bad_corr.append((sc, r, d))
         if rc not in (0, 1, 3):
             bad_mon.append((sc, {"mon": "harness crashed rc=%d %s" % (rc, err[-300:]), "sched": []}))
-        if si < 2 and runs:
-            ck.sample({"lock": name, "scenario": sc, "effective": runs[0]["eff"], "trace_head": runs[0]["ev"][:12], "results": runs[0]["res"]})
-    # bounded-preemption exhaustive exploration of the corpus scenarios with the property monitors
+        if si < 1 and runs:
+            ck.sample({"lock": name, "scenario": [" ".join(p) for p in sc], "effective": runs[0]["eff"],
+                       "trace_head": (runs[0]["ev"] or runs[0]["v"])[:10], "results": runs[0]["res"]}, cap=10)
+    # bounded-preemption exhaustive exploration of the contention scenarios with the property monitors
     dfs_runs = 0
-    for sc in corpus[: (3 if quick else len(corpus))]:
-        text = "".join("prog " + " ".join(p) + "\n" for p in sc)
-        rc, out, err = sh([exe, "dfs", "2" if quick else "3", "20000" if quick else "400000"], input=text, timeout=1500)
-        m = re.search(r"summary runs=(\d+) bad=(\d+)", out)
-        if m:
-            dfs_runs += int(m.group(1))
-        if rc != 0 or not m or m.group(2) != "0":
-            rs = parse_runs(out)
-            bad_mon.append((sc, rs[-1] if rs else {"mon": "harness rc=%d %s" % (rc, (out + err)[-300:]), "sched": []}))
+    if not heavy:
+        for sc in corpus[: (3 if quick else len(corpus))]:
+            rc, out, err = sh([exe, "dfs", "2" if quick else "3", "20000" if quick else "300000"], input=prog_text(sc), timeout=1500)
+            m = re.search(r"summary runs=(\d+) bad=(\d+)", out)
+            if m:
+                dfs_runs += int(m.group(1))
+            if rc != 0 or not m or m.group(2) != "0":
+                rs = parse_runs(out)
+                bad_mon.append((sc, rs[-1] if rs else {"mon": "harness rc=%d %s" % (rc, (out + err)[-300:]), "sched": []}))
     ck.evaluations += dfs_runs
-    ck.extra.setdefault("schedules", {})[name] = {"random_runs": nruns, "dfs_runs": dfs_runs}
-    ck.oblige("corr:%s atomic-access trace replays on the Lean model (accesses, values, results)" % name, "correspondence", not bad_corr,
-              "" if not bad_corr else "%s | scenario %s | sched %s" % (bad_corr[0][2], bad_corr[0][0], " ".join(bad_corr[0][1]["sched"])))
-    ck.oblige("monitor:%s exclusion / reader-writer rule / truthful upgrade / no deadlock (random + bounded-preemption DFS)" % name, "correspondence", not bad_mon,
-              "" if not bad_mon else "%s | scenario %s" % (bad_mon[0][1]["mon"], bad_mon[0][0]))
-    for sc, r in bad_mon[:1]:
+    info = {"random_runs": nruns, "dfs_runs": dfs_runs}
+    if heavy:
+        info["runs_in_which_a_thread_slept"] = slept
+    ck.extra.setdefault("schedules", {})[name] = info
+    what = {"word": "atomic-access trace replays on the Lean model (accesses, values, results)",
+            "mcs": "q_tail / m_next / m_going access trace replays on `Mcs` (accesses, values, CAS outcomes, results, FIFO logs)",
+            "slp": "lock-word accesses and sleep/wake hand-shake (enqueue, predicate, epoch check, P/V, flush) replay on the Lean model",
+            "qrw": "holder-bookkeeping event log is accepted by the proven specification machine QRwSpec"}.get(kind.split(":")[0])
+    if what:
+        ck.oblige("corr:%s %s" % (name, what), "correspondence", not bad_corr,
+                  "" if not bad_corr else "%s | scenario %s | sched %s" % (bad_corr[0][2], bad_corr[0][0], " ".join(bad_corr[0][1]["sched"])))
+    if heavy:
+        ck.oblige("corr:%s some explored runs really put a thread to sleep" % name, "correspondence", slept > 0, "%d of %d" % (slept, nruns))
+    ck.oblige("monitor:%s exclusion / reader-writer rule / truthful try+upgrade / queue order / no deadlock (random%s)" % (name, "" if heavy else " + bounded-preemption DFS"),
+              "correspondence", not bad_mon, "" if not bad_mon else "%s | scenario %s" % (bad_mon[0][1]["mon"], bad_mon[0][0]))
+    cex = bad_mon[:1]
+    if not cex and bad_corr:
+        # the correspondence broke but the monitors are quiet: search harder for a property failure on the implementation
+        cex = search(ck, name, exe, [b[0] for b in bad_corr[:3]] + corpus)
+        if not cex and kind == "qrw":
+            sc, r, d = bad_corr[0]      # a rejected event IS a property failure of the implementation (safety / queue order / truthfulness of the spec)
+            ck.counterexample("%s:spec-rejects" % name, "%s: %s under schedule %s" % (name, d, " ".join(r["sched"])),
+                              {"engine": "E-SHIM", "lock": name, "scenario": sc, "schedule": r["sched"], "monitor": d, "events": r["v"]})
+    for sc, r in cex:
         ck.counterexample("%s:%s" % (name, r["mon"].split(" ")[0] if r["mon"] else "?"),
                           "%s: %s under schedule %s" % (name, r["mon"], " ".join(r["sched"])),
-                          {"engine": "E-SHIM", "lock": name, "scenario": sc, "schedule": r["sched"], "monitor": r["mon"], "trace": r.get("ev", [])[:200]})
+                          {"engine": "E-SHIM", "lock": name, "scenario": sc, "schedule": r["sched"], "monitor": r["mon"],
+                           "trace": (r.get("ev") or r.get("v") or [])[:200]})
     return bad_corr, bad_mon
 
 
-def build(name, src, defs=()):
-    return cxx_build("C08", name, [src, common.SHIM_SRC, STUBS], flags=["-O1", "-g", "-fno-access-control"] + list(defs) + common.SHIM_FLAGS)
+def search(ck, name, exe, scs):
+    """failing-input search: more random schedules (and DFS for the component harnesses) on the given scenarios"""
+    heavy = FAMILIES[name][5].startswith("slp")
+    for si, sc in enumerate(scs):
+        rc, out, err = sh([exe, "rand", str(ck.seed * 7 + 900 + si), "400" if heavy else "1500"], input=prog_text(sc), timeout=900)
+        for r in parse_runs(out):
+            if r["mon"] != "ok":
+                return [(sc, r)]
+        if not heavy:
+            rc, out, err = sh([exe, "dfs", "3", "200000"], input=prog_text(sc), timeout=900)
+            rs = parse_runs(out)
+            if rs and rs[-1]["mon"] != "ok":
+                return [(sc, rs[-1])]
+    return []
 
 
 def run(ck):
-    ck.rule = ("E-SHIM: hand-written contention scenarios + random 2-4 thread op programs (seeded), each under seeded random schedules with "
-               "access-by-access replay on the Lean model, plus bounded-preemption DFS of the contention scenarios with ghost-holder monitors; "
-               "distinct = distinct (lock kind, #threads, access kinds seen, results) classes")
+    ck.rule = ("E-SHIM on all eight lock kinds: hand-written contention scenarios (incl. concurrent upgrades by several readers, long holds "
+               "that send waiters to sleep) + seeded random 2-4 thread op programs, each under seeded random schedules; access-by-access "
+               "replay on the Lean protocol models (spin_rw_mutex, spin_mutex, queuing_mutex, mutex, rw_mutex), validation of the event log "
+               "against the proven specification (queuing_rw_mutex), ghost-holder / FIFO monitors and deadlock detection everywhere, "
+               "bounded-preemption DFS of the contention scenarios for the non-sleeping locks; distinct = distinct (lock kind, #threads, "
+               "access kinds x variables seen, results) classes")
     ck.assumptions += [
-        "proved on the model: spin_mutex and spin_rw_mutex word protocols (N threads, all schedules, sequentially consistent interleavings)",
-        "release/acquire visibility is not modelled (the shim serialises accesses); memory orders are recorded in the trace only",
-        "queuing_mutex, queuing_rw_mutex, mutex, rw_mutex and the RTM variants: covered by the implementation-side monitors under explored "
-        "schedules where a harness exists, not by theorems yet",
-        "weak CAS never fails spuriously under the shim"]
-    ck.trusted += ["harness/shim (atomic shim + baton scheduler)", "harness/c08/*.cpp ghost-holder monitors", "trace replay in checks/c08.py (sampled correspondence)"]
-    gen(ck)
+        "proved on models at atomic-access granularity, N threads, all sequentially consistent interleavings: spin_mutex, spin_rw_mutex, "
+        "queuing_mutex (Mcs), the word protocols of mutex and rw_mutex together with the sleep/wake hand-shake",
+        "the concurrent_monitor behind wait_on_address/notify_* is modelled at its linearisation points (enqueue, predicate load, epoch check, "
+        "semaphore P/V, flush under the monitor mutex); its internals (own mutex, list, futex) are serialised by its mutex and belong to C02",
+        "rw_mutex: the wake rules are proved per step (rwm_wake_rules) and 'a removed sleeper has its wake-up in flight' for all schedules; the "
+        "global statement 'no thread sleeps on a satisfiable condition without a covering notifier' is proved for mutex (token invariant) but "
+        "for rw_mutex only checked by deadlock detection on the explored schedules",
+        "queuing_rw_mutex: PARTIAL — only the specification machine QRwSpec is proved (safety, queue order, truthful upgrade, atomic downgrade); "
+        "the node protocol of queuing_rw_mutex.cpp (my_prev/my_next/my_state/my_going/internal locks) is NOT modelled; the implementation is "
+        "tied to the spec by validating its holder-bookkeeping event log on the explored schedules only",
+        "speculative_spin_mutex / speculative_spin_rw_mutex: this machine has no RTM (speculation_enabled() is false), so only the fall-back "
+        "path is exercised, with the monitors; transactional execution is NOT modelled",
+        "TSO store-buffer delays are not explored (the shim serialises accesses: sequentially consistent interleavings); release/acquire "
+        "visibility rests on the regenerated memory-order table (rw_orders_publish: every releasing access is release-or-stronger, every "
+        "acquiring access acquire-or-stronger, on the same variable) plus the C++11 / x86-TSO mapping of those orders",
+        "weak CAS never fails spuriously under the shim; futex waits have no spurious wake-ups",
+        "the sleeping locks are explored with random schedules only (their 38-iteration spin phase makes bounded DFS useless)"]
+    ck.trusted += ["harness/shim (atomic shim + baton scheduler)", "harness/c08/*.cpp ghost-holder monitors and variable naming "
+                   "(monitor slot of the lock's address, per-call sleep_node recognised by its access pattern)",
+                   "trace replay / role classification of accesses in checks/c08.py (sampled correspondence)"]
+    exes = {name: fam[1]() for name, fam in FAMILIES.items()}
+    spin = gen(ck, exes)
     ck.lean_stage()
-    rw = build("rw", "harness/c08/rw.cpp")
-    run_family(ck, "spin_rw_mutex", rw, "c08rw", RW_CORPUS, RW_OPS, 6)
-    mx = build("mx", "harness/c08/mx.cpp")
-    run_family(ck, "spin_mutex", mx, "c08spin", MX_CORPUS, MX_OPS, 6)
+    for name in FAMILIES:
+        run_family(ck, name, exes[name], spin)
 
 
 def replay(ck, obj):
     r = obj["replay"]
-    src = {"spin_rw_mutex": ("rw", "harness/c08/rw.cpp"), "spin_mutex": ("mx", "harness/c08/mx.cpp")}[r["lock"]]
-    exe = build(*src)
-    text = "".join("prog " + " ".join(p) + "\n" for p in r["scenario"])
-    rc, out, err = sh([exe, "replay", ",".join(r["schedule"])], input=text, timeout=120)
+    exe = FAMILIES[r["lock"]][1]()
+    rc, out, err = sh([exe, "replay", ",".join(r["schedule"])], input=prog_text(r["scenario"]), timeout=300)
     print(out)
     return 0 if rc == 0 else 1
